@@ -1200,12 +1200,11 @@ def judge_hhistories(ctx, work, name, hl, asan, prec):
         ctx.violation("the object library with helper-creating properties does not build (%s): %s" % r["build_error"], dict(error=r["build_error"]))
         return 0
     show = lambda h: [[s["op"], s["a"], s["b"]] for s in h["steps"]]
-    if not r["finished"]:
-        at = r.get("last_at")
+    for cr in r["crashes"]:           # a dead interpreter is never covered by a finding class
+        at = cr["at"]
         h = dict(hl).get(at[1]) if isinstance(at, list) and len(at) == 2 else None
-        ctx.violation("the interpreter died (%s)%s during the helper history %s" % (r["rc"], " under ASan" if asan else "", show(h) if h else at),
-                      dict(rc=r["rc"], at=at, stderr=r["stderr"][-2500:], asan=asan),
-                      classes=sorted(hclasses_of(h)) if h else [])
+        ctx.violation("the interpreter died (%s)%s during the helper history %s" % (cr["rc"], " under ASan" if asan else "", show(h) if h else at),
+                      dict(rc=cr["rc"], at=at, stderr=cr["stderr"][-2500:], asan=asan))
     n = 0
     for hid, h in hl:
         o = r["obs"].get(hid)
@@ -1385,9 +1384,22 @@ def helpers_batch(args):
     except pymod.PymodError as e:
         res["build_error"] = (e.stage, e.detail[-3000:])
         return res
-    json.dump(hhistory_script(name, hists), open(os.path.join(wd, "script.json"), "w"))
-    recs, rc, err = run_driver(wd, os.path.join(wd, "script.json"), os.path.join(wd, "out.ndjson"), asan=asan)
-    res.update(rc=rc, stderr=err, obs={r["h"]: r for r in recs if "h" in r},
-               last_at=next((r["at"] for r in reversed(recs) if "at" in r), None),
-               finished=any("done" in r for r in recs))
+    # a history that kills the interpreter is reported and the remaining ones are run in a fresh
+    # interpreter (at most a few times), so that one crash does not hide the other observations
+    todo, obs, crashes = list(hists), {}, []
+    for attempt in range(4):
+        json.dump(hhistory_script(name, todo), open(os.path.join(wd, "script.json"), "w"))
+        recs, rc, err = run_driver(wd, os.path.join(wd, "script.json"), os.path.join(wd, "out%d.ndjson" % attempt), asan=asan)
+        obs.update({r["h"]: r for r in recs if "h" in r})
+        if any("done" in r for r in recs):
+            break
+        at = next((r["at"] for r in reversed(recs) if "at" in r), None)
+        crashes.append(dict(rc=rc, at=at, stderr=err))
+        ids = [hid for hid, _ in todo]
+        if not (isinstance(at, list) and len(at) == 2 and at[1] in ids):
+            break
+        todo = todo[ids.index(at[1]) + 1:]
+        if not todo:
+            break
+    res.update(obs=obs, crashes=crashes)
     return res
